@@ -101,10 +101,16 @@ impl TryFrom<apollo_parser::cst::ObjectTypeDefinition> for ObjectTypeDef {
             extend: false,
             fields_def: object_def
                 .fields_definition()
-                .expect("object type definition must have fields definition")
-                .field_definitions()
-                .map(FieldDef::try_from)
-                .collect::<Result<Vec<_>, _>>()?,
+                .map(|fields_def| {
+                    fields_def
+                        .field_definitions()
+                        .map(FieldDef::try_from)
+                        .collect::<Result<Vec<_>, _>>()
+                })
+                .transpose()?
+                // A definition or an extension may come without a fields block
+                // (`extend interface N @d`)
+                .unwrap_or_default(),
         })
     }
 }
@@ -136,10 +142,16 @@ impl TryFrom<apollo_parser::cst::ObjectTypeExtension> for ObjectTypeDef {
             extend: true,
             fields_def: object_def
                 .fields_definition()
-                .expect("object type definition must have fields definition")
-                .field_definitions()
-                .map(FieldDef::try_from)
-                .collect::<Result<Vec<_>, _>>()?,
+                .map(|fields_def| {
+                    fields_def
+                        .field_definitions()
+                        .map(FieldDef::try_from)
+                        .collect::<Result<Vec<_>, _>>()
+                })
+                .transpose()?
+                // A definition or an extension may come without a fields block
+                // (`extend interface N @d`)
+                .unwrap_or_default(),
         })
     }
 }
